@@ -83,7 +83,7 @@ var model = &attribGroup{
 	tag: printerAttribTag,
 	val: []ValueType{
 		&valStr{valKeyword, "compression-supported", []string{"none"}},
-		&valRangeInt{valRangeOfInt, "copies-supported", int32(1), int32(1)},
+		&valRangeInt{tag: valRangeOfInt, name: "copies-supported", low: 1, high: 1},
 		&valStr{mimeMediaType, "document-format-supported", []string{
 			"application/octet-stream",
 			"image/pwg-raster",
